@@ -5,7 +5,7 @@
   the model; Go memory-model races inside a block, fairness and goleveldb's internal concurrency are outside the model.
 -/
 import SV.Conc.LinProofs
-import SV.FactsProofs.Persist
+import SV.FactsProofs.Blocks
 namespace SV.Props.C11
 open SV SV.Persist SV.Conc
 
